@@ -104,7 +104,7 @@ def is_value_op(f, path):
     if not b or b["kind"] != "Fn" or b.get("coroutine_kind"):
         return False
     tys = [f.ty_s(b["locals"][i + 1]["ty"]) for i in range(b["arg_count"])]
-    if not tys or not all(t in (VALUE, "&" + INDEX) for t in tys) or VALUE not in tys:
+    if not tys or not all(t in (VALUE, "&" + VALUE, "&" + INDEX) for t in tys) or not any(t in (VALUE, "&" + VALUE) for t in tys):
         return False
     return f.ty_s(b["locals"][0]["ty"]).startswith("std::result::Result<value::Value")
 
@@ -157,7 +157,7 @@ def operator_cells(f, path, max_paths=3000):
     tys = [f.ty_s(b["locals"][i + 1]["ty"]) for i in range(n)]
     doms = []
     for t in tys:
-        if t == VALUE:
+        if t in (VALUE, "&" + VALUE):
             doms.append((VALUE, f.variant_names(VALUE)))
         else:
             doms.append((INDEX, f.variant_names(INDEX)))
